@@ -15,6 +15,7 @@ const IGNORABLE: u8 = 6;
 const UD: u8 = 7;
 const OLDPAL11: u8 = 8;
 const EXTERNAL: u8 = 9;
+const UD_EMPTY: u8 = 10; // user data record with neither text nor colour (flags 0)
 
 #[derive(Clone, Copy, PartialEq)]
 enum Target {
@@ -177,9 +178,9 @@ fn run_sequence<const N: usize>(kinds: [u8; N], expect_ok: bool) {
             NEWPAL => newpal_chunk(&mut body),
             IGNORABLE => ignorable_chunk(&mut body, i),
             EXTERNAL => external_chunk(&mut body),
-            _ => {
-                // text+colour, text only, colour only, neither -- by position
-                let ud = ud_chunk(&mut body, [3u32, 1, 2, 0][(n_ud % 4) as usize]);
+            k => {
+                // text+colour, text only, colour only, neither -- by position; UD_EMPTY is always "neither"
+                let ud = ud_chunk(&mut body, if k == UD_EMPTY { 0 } else { [3u32, 1, 2, 0][(n_ud % 4) as usize] });
                 n_ud += 1;
                 match cur {
                     Target::Layer(k) => exp_layer[k] = ud,
@@ -264,6 +265,8 @@ seq!(c10_q_tags_ud_layer_ud, 9, true, [TAGS2, UD, LAYER, UD]);
 seq!(c10_q_cel_newpal_ud, 9, true, [CEL, NEWPAL, UD]);
 seq!(c10_q_layer_newpal_oldpal_ud, 9, true, [LAYER, NEWPAL, OLDPAL, UD]);
 seq!(c10_q_oldpal_layer_oldpal11_ud, 9, true, [OLDPAL, LAYER, OLDPAL11, UD]);
+seq!(c10_q_tags_empty_ud_then_ud, 9, true, [TAGS2, UD_EMPTY, UD]);
+seq!(c10_q_layer_empty_ud, 9, true, [LAYER, UD_EMPTY]);
 // thorough: longer mixes
 seq!(c10_t_layer_ud_cel_ud_slice_ud, 9, true, [LAYER, UD, CEL, UD, SLICE, UD]);
 seq!(c10_t_oldpal11_external_ud, 9, true, [OLDPAL11, EXTERNAL, UD]);
